@@ -515,6 +515,9 @@ func verifH_NewStream() {
 		verifAssert(err == car.sendErr && str == nil, "C04.carrier-failure-reported")
 		_, still := c.streams[L+1]
 		verifAssert(!still, "C14.failed-start-leaves-no-table-entry")
+		verifDrain()
+		// the peer never saw a new_stream for it: nothing else may be emitted for that id
+		verifAssert(len(car.sent) == 0, "C03+C08+C13.no-frame-for-an-rpc-that-never-started")
 		return
 	}
 	verifCover("started")
